@@ -153,11 +153,15 @@ let f _id vs =
             if o.err <> 0 && (o.tuples <> pt || o.asc <> pl) then
               pf "failed_but_changed" "%s: the request failed (class %d) but tuples or changelog changed" where o.err;
             if must_fail_cmd && o.err = 0 then pf "invalid_accepted" "%s: an invalid request was accepted" where;
-            if in_contract && fault = 0 && not must_fail_cmd then begin
+            (* also for a request in which a statement was made to fail: it may fail (that is
+               checked above to change nothing), but if it reports success everything must be there *)
+            if in_contract && not must_fail_cmd then begin
               match spec_write ondup onmiss dels wrs (List.map otuple_of pt) with
               | None -> if o.err = 0 then pf "must_fail_succeeded" "%s: the request must fail (existing write / missing delete / other condition) but succeeded" where
               | Some ((ts', dlog), wlog) ->
-                if o.err <> 0 then pf (if o.err = 2 then "spurious_condition_conflict" else "must_succeed_failed") "%s: the request must succeed but failed with class %d" where o.err
+                if o.err <> 0 then begin
+                  if fault = 0 then pf (if o.err = 2 then "spurious_condition_conflict" else "must_succeed_failed") "%s: the request must succeed but failed with class %d" where o.err
+                end
                 else begin
                   if o.tuples <> sort_t (List.map tup_of ts') then
                     pf "effect_mismatch" "%s: tuples after the write are not (old - deletes) + writes: got %s want %s" where
